@@ -646,6 +646,12 @@ def run(ctx):
         if i < n:
             feats = rand_features(r, r.randrange(1, 13))
             spec = rand_idspec(r)
+            zoo = sorted(dbside.CALLZOO)
+            if i < 2 * len(zoo):
+                # every callable of the zoo is used in every run (among them 'autoincrement:<seqid>:<featuretype>', whose
+                # base contains a colon), alone and behind an attribute that is sometimes missing
+                C_ = ("c", zoo[i % len(zoo)])
+                spec = dbside.IdSpec("L", [C_], form="callable") if i < len(zoo) else dbside.IdSpec("L", [("a", "missing"), C_])
         else:
             # the id attribute defined twice by repeating the key (ID=a;ID=b, Name=x;Name=y), inside and beyond the
             # dialect-inspection window (checklines + 1 features): small windows, files longer than the window; sometimes
